@@ -63,9 +63,10 @@ def export(work, rgs, progs, variant, tag):
 def build_datasets(fp, pd, base, pool, cls):
     """-> list of datasets: dict(path, idx=[pool index per row group], rids=[[row ids] per row group])"""
     out = []
-    for stats in (False, True):
+    for stats, only in ((False, "both"), (True, "both"), (True, "x"), (True, "y")):
         for part in (False, True):
-            idx = [i for i, g in enumerate(pool) if g["stats"] == stats and ((g["p"] != NULL) == part)]
+            idx = [i for i, g in enumerate(pool) if g["stats"] == stats and g.get("only", "both") == only
+                   and ((g["p"] != NULL) == part)]
             if not idx:
                 continue
             xs, ys, ps, rid, offs = [], [], [], [], []
@@ -77,17 +78,18 @@ def build_datasets(fp, pd, base, pool, cls):
                     ps.append(pool[i]["p"])
                     rid.append(i * 10 + r)
             df = pd.DataFrame({"rid": pd.Series(rid, dtype="int64"), "x": column(pd, cls, xs), "y": column(pd, "int", ys)})
-            path = os.path.join(base, "ds-%s-%d-%d" % (cls, stats, part))
+            path = os.path.join(base, "ds-%s-%d-%s-%d" % (cls, stats, only, part))
+            stats_arg = stats if only == "both" else [only]
             if part:
                 df["p"] = pd.Series(ps, dtype="int64")
-                fp.write(path, df, file_scheme="hive", partition_on=["p"], row_group_offsets=offs, stats=stats,
+                fp.write(path, df, file_scheme="hive", partition_on=["p"], row_group_offsets=offs, stats=stats_arg,
                          write_index=False)
             else:
-                fp.write(path, df, file_scheme="hive", row_group_offsets=offs, stats=stats, write_index=False)
+                fp.write(path, df, file_scheme="hive", row_group_offsets=offs, stats=stats_arg, write_index=False)
             pf = fp.ParquetFile(path)
             if len(pf.row_groups) != len(idx):
                 raise RuntimeError("dataset does not have one row group per pool element: %d vs %d" % (len(pf.row_groups), len(idx)))
-            out.append({"path": path, "idx": idx, "stats": stats, "part": part})
+            out.append({"path": path, "idx": idx, "stats": stats, "only": only, "part": part})
     return out
 
 
@@ -122,7 +124,7 @@ def eval_job(args):
             filters = real_filters(pg, cls)
             sig = {"ops": sorted({a["op"] for g in pg["groups"] for a in g}), "flat": pg["flat"],
                    "groups": len(pg["groups"]), "atoms": sum(len(g) for g in pg["groups"]),
-                   "partition_atom": mentions_p(pg), "class": cls, "stats": dsinfo["stats"]}
+                   "partition_atom": mentions_p(pg), "class": cls, "stats": dsinfo["stats"], "stat_columns": dsinfo.get("only", "both")}
             pf = fp.ParquetFile(dsinfo["path"])
             out["evals"] += 1
             try:
@@ -153,7 +155,8 @@ def eval_job(args):
             mkb = [j for j, i in enumerate(idx) if case["keepb"][i]]
             if mk != list(kept) and mkb != list(kept) and cls != "str" and len(out["drift"]) < 5:
                 out["drift"].append({"what": "pruning differs from the mechanism model", "prog": pg,
-                                     "real": list(kept)[:10], "model": mk[:10]})
+                                     "real": list(kept)[:10], "model": mk[:10],
+                                     "dataset": {k: dsinfo[k] for k in ("stats", "only", "part") if k in dsinfo}})
             # ---- C13 ----
             try:
                 dfr = pf.to_pandas(filters=filters, row_filter=True)
@@ -166,6 +169,11 @@ def eval_job(args):
             mset = {i * 10 + r for i in idx for r in range(len(pool[i]["rows"])) if case["may"][i][r]}
             ms = [i * 10 + r for i in idx for r in range(len(pool[i]["rows"])) if case["sel"][i][r]]
             gotset = set(got)
+            allrids = {i * 10 + r for i in idx for r in range(len(pool[i]["rows"]))}
+            if not gotset <= allrids:
+                out["viol"].append(("C13", dict(sig, what="the row-filtered read returns rows that are not in the dataset "
+                                                          "(uninitialised or misplaced cells)"), ci))
+                continue
             if sorted(got) != got or len(gotset) != len(got):
                 out["viol"].append(("C13", dict(sig, what="rows out of order or duplicated"), ci))
             elif [r for r in dset if r not in gotset]:
